@@ -175,11 +175,11 @@ def r3_client_gate(ctx):
     queue_sends = [(bb, t) for bb, t in sends if not rt.dominates(recv[0][0], bb)]
     for bb, t in loop_sends:
         only = not rt.reachable_avoiding(bb, ind_edges + ok_edges, start=recv[0][0])
-        ctx.check(only and ind_edges, "receive_typed/delivery-gated@%s" % rt.blocks[bb].term["span"].rsplit(":", 1)[-1], site_of(rt, bb),
+        ctx.check(only and ind_edges, ctx.nth("receive_typed/delivery-gated"), site_of(rt, bb),
                   "an event received from the network can reach user code without being independent or having a tick <= the update tick")
     for bb, t in queue_sends:
         deps = dep_closure(rt, t["args"][1])
-        ctx.check(("call", pops[0][0]) in deps, "receive_typed/queued-delivery-from-pop_if_le@%s" % rt.blocks[bb].term["span"].rsplit(":", 1)[-1], site_of(rt, bb),
+        ctx.check(("call", pops[0][0]) in deps, ctx.nth("receive_typed/queued-delivery-from-pop_if_le"), site_of(rt, bb),
                   "an event delivered before the receive loop does not come from pop_if_le(update_tick)")
     # ahead edge leads only to queue.insert, never to a send
     for (a, tb, lab) in ahead_edges:
